@@ -128,6 +128,8 @@ func randomCfg(g *rand.Rand, seed int64, family string) SchedCfg {
 	case "snapapply":
 		b.Async = true
 		s.Strict = false
+	case "selfack":
+		b.Async = true
 	case "readhb":
 		b.Lease = false
 	case "soloread":
@@ -411,7 +413,7 @@ func (x *gen) next(phase string) string {
 	return "tickall"
 }
 
-var phases = []string{"healthy", "chaos", "partition", "crashy", "confchange", "snapshots", "transfer", "reads", "limits", "stall", "dsnap", "fig8snap", "dupvote", "snaplead", "rereads", "snapapply", "aba", "xferjoint", "soloread", "readhb"}
+var phases = []string{"healthy", "chaos", "partition", "crashy", "confchange", "snapshots", "transfer", "reads", "limits", "stall", "dsnap", "fig8snap", "dupvote", "snaplead", "rereads", "snapapply", "aba", "xferjoint", "soloread", "readhb", "selfack"}
 
 func (x *gen) isLeader(n *Node) bool {
 	if !n.alive || n.rn == nil {
@@ -728,6 +730,8 @@ func runRandom(s SchedCfg, nops int, tr *traceWriter) *Cluster {
 			x.directedSoloRead()
 		case "readhb":
 			x.directedReadHeartbeat()
+		case "selfack":
+			x.directedSelfAck()
 		default:
 			for i, l := 0, 15+x.g.Intn(50); i < l && c.ops < nops; i++ {
 				c.exec(x.next(phase))
